@@ -321,4 +321,37 @@ theorem first_definition_wins (t : List (String × δ)) (q : String) (d : δ) (o
 example : lookup (attempts ([] : List (String × Nat)) [("a", 1), ("b", 2), ("a", 3)]) "a" = some 1 := by decide
 
 
+/-! ### the second definition is refused in every order of events -/
+
+theorem attempts_append (t : List (String × δ)) (a b : List (String × δ)) :
+    attempts t (a ++ b) = attempts (attempts t a) b := by
+  induction a generalizing t with
+  | nil => rfl
+  | cons op rest ih => obtain ⟨q, d⟩ := op; simp only [List.cons_append, attempts]; exact ih _
+
+/-- after an attempt on `q` the name is bound (to the old binding or to the new one) -/
+theorem attempt_bound (t : List (String × δ)) (q : String) (d : δ) : ∃ x, lookup (attempt t q d) q = some x := by
+  cases h : lookup t q with
+  | some x => exact ⟨x, attempt_keeps t q d x h⟩
+  | none => exact ⟨d, attempt_binds t q d h⟩
+
+/-- **Every second definition (or export) of a name is refused, whatever happened in between**:
+    in any history `pre ++ [(q, d)] ++ mid`, however long `mid` is and whatever other names it
+    defines, a further definition of `q` is reported as a duplicate (`define … = none`) — there
+    is no order of exports, includes and definitions in which the second one slips through. -/
+theorem second_definition_refused (t : List (String × δ)) (pre mid : List (String × δ)) (q : String) (d d2 : δ) :
+    define (attempts t (pre ++ (q, d) :: mid)) q d2 = none := by
+  rw [attempts_append]
+  simp only [attempts]
+  obtain ⟨x, hx⟩ := attempt_bound (attempts t pre) q d
+  have := attempts_keep _ mid q x hx
+  exact duplicate_reports _ q x d2 this
+
+/-- and the table is then left as it was: the refused definition binds nothing -/
+theorem refused_changes_nothing (t : List (String × δ)) (q : String) (d : δ) (h : define t q d = none) :
+    attempt t q d = t := by
+  unfold attempt; simp [h]
+
+example : define (attempts ([] : List (String × Nat)) ([("u", 9)] ++ ("x", 1) :: [("lib", 2), ("v", 3)])) "x" 7 = none := by decide
+
 end Pdpy11.Props.C11
